@@ -16,7 +16,9 @@ Visible(g) == Potential(g, NoSel(g))
 Usable(g, m) == m \in Visible(g) /\ g.nodes[m].mdir # 0 /\ g.nodes[m].mtype # "none"
 MustObj(g, m) == Usable(g, m) /\ m \in DefPerm(g) /\ (~g.nodes[m].hasref \/ g.nodes[m].mtype = "obj")
 MayObj(g, adm, m) == Usable(g, m) /\ m \in EveryArch(g, adm) /\ (~g.nodes[m].hasref \/ g.nodes[m].mtype # "con")
-MustCon(g, adm, m) == Usable(g, m) /\ g.nodes[m].hasref /\ (m \notin EveryArch(g, adm) \/ g.nodes[m].mtype = "con")
+\* (a metric node that is part of no admissible architecture at all may have been removed already)
+InSomeArch(adm, m) == \E A \in adm : m \in A.nodes
+MustCon(g, adm, m) == Usable(g, m) /\ InSomeArch(adm, m) /\ g.nodes[m].hasref /\ (m \notin EveryArch(g, adm) \/ g.nodes[m].mtype = "con")
 MayCon(g, m) == Usable(g, m) /\ g.nodes[m].hasref /\ ~(g.nodes[m].mtype = "obj" /\ m \in DefPerm(g))
 IsAmbiguous(g, m) == Usable(g, m) /\ g.nodes[m].hasref /\ g.nodes[m].mtype = "auto"
 MustRaise(g) == \E m \in MetIds(g) : IsAmbiguous(g, m) /\ m \in DefPerm(g)
